@@ -84,7 +84,7 @@ PROPS = {
     },
     "C10": {
         "lean_modules": ["C10"],
-        "rule": '1-4 operands x base shapes of rank 1-4 (vector-like shapes included) x every valid axis (concat 0..rank-1, stack 0..rank, repeat 0..rank-1 and AllAxes) x operand layouts {contiguous, lazily transposed, offset slice, stepped slice, materialised, contiguous row-slice} independently per operand x {function, method} for Concat/Stack/Repeat, Hstack, Vstack, RepeatReuse (right, wrong and non-contiguous reuse) x counts {one broadcast 0-3, per-entry 0-3, exactly one survivor} x u8,i16,f32,f64,c128,str; every program runs the calculator (Shape.Concat/Shape.Repeat) on the same arguments first; malformed stream (axes rank, rank+1, -1, -2, -3; wrong count length; off-axis/rank mismatches; permuted equal-size shapes; the same tensor repeated; rank-0; vector-axis-1 extension; masked Concat operands); after each op: result dump, returned-tensor identity, opsame (metadata + mask of every operand unchanged), dumps of every pre-existing tensor',
+        "rule": '1-4 operands x base shapes of rank 1-4 (vector-like shapes included) x every valid axis (concat 0..rank-1 and AllAxes = the outermost axis, stack 0..rank, repeat 0..rank-1 and AllAxes) x operand layouts {contiguous, lazily transposed, offset slice, stepped slice, materialised, contiguous row-slice} independently per operand x {function, method} for Concat/Stack/Repeat, Hstack, Vstack, RepeatReuse (right, wrong and non-contiguous reuse) x counts {one broadcast 0-3, per-entry 0-3, exactly one survivor} x u8,i16,f32,f64,c128,str; every program runs the calculator (Shape.Concat/Shape.Repeat) on the same arguments first; malformed stream (axes rank, rank+1, -1 (valid for concat), -2, -3; wrong count length; off-axis/rank mismatches; permuted equal-size shapes; the same tensor repeated; rank-0; vector-axis-1 extension; masked Concat operands); after each op: result dump, returned-tensor identity, opsame (metadata + mask of every operand unchanged), dumps of every pre-existing tensor',
     },
     "C11": {
         "lean_modules": ["C11", "C17glue", "C17"],
